@@ -204,7 +204,21 @@ def main():
 
     rng = random.Random(seed * 1000003 + int(hashlib.sha1(pid.encode()).hexdigest()[:6], 16))
     known = load_known(pid)
-    result = chk.run(tier, rng, log)
+    try:
+        result = chk.run(tier, rng, log)
+    except (SystemExit, KeyboardInterrupt):
+        raise
+    except Exception:
+        # the harness could not complete its run against this tree (an exception of the implementation reached it where
+        # none was expected, or the harness itself is wrong): the correspondence is not established
+        import traceback
+        tb = traceback.format_exc()
+        log(tb)
+        result = {'evaluations': 0, 'distinct': 0, 'rule': getattr(chk, 'rule', ''), 'samples': [], 'distribution': {},
+                  'violations': [], 'extra': {'harness_exception': tb[-1500:]},
+                  'disagreements': [{'case': {'kind': 'harness-exception', 'traceback': tb[-3000:]},
+                                     'impl': 'the run raised ' + tb.strip().split('\n')[-1][:300],
+                                     'model': 'the harness expects every outcome of the implementation to be a value it can compare', 'explained': False}]}
     # result: dict(evaluations, distinct, rule, samples, distribution, disagreements:[...],
     #              violations:[{what, case, ...}], extra)
     violations = []
